@@ -21,6 +21,7 @@ META = {
         "point of some t containing B; the bound |B|+1 is exact). Second oracle: independent region arithmetic. "
         "Non-trivial: |A| < |B|, A is shaded and an occurrence is reported (pair) / S is a proper non-empty "
         "subset and the induced shading is non-empty (sub). Distinct = case content."
+        " Transitive reading through the library's boolean entry points on every permutation up to |B|+1 that contains B."
     ),
     "assumptions": [
         "MeshPatt.occurrences_in(Perm) is occurrence in a permutation (C03), not pattern-in-pattern; the implication is asserted for MeshPatt in MeshPatt, Perm in MeshPatt and MeshPatt in MeshPatt(perm, []) only",
